@@ -75,6 +75,8 @@ def generate(rng, tier):
             s2 = dict(s)
             s2["port"] = s["port"] + 1
             s2["props"] = {"ver": "2"}
+            if r2.random() < 0.3:
+                s2["addrs"] = [f"10.77.{len(ops) % 250}.{r2.randrange(1, 250)}"]  # the host moved to another address
             # an update follows the previous announcement burst (ends tdone + 0.45 s) by more than one second: the
             # cache-flush bit only retires records received more than 1 s ago (RFC 6762 10.2)
             tu = round(tdone + r2.choice([0.1, 0.3, 1.6, 2.0, 3.0, 8.0]) + r2.random() * r2.choice([0.1, 1.0]), 6)
@@ -245,6 +247,10 @@ def _oracle(w, drv, sc, t_end, stats, out):
                 continue
             ro, rn = _SRx(old_v[2]), _SRx(new_v[2])
             stale = {r.ident() for r in (ro.srv, ro.txt)} - {r.ident() for r in (rn.srv, rn.txt)}
+            # ... and the replaced addresses, unless another service of that host name has them as well
+            others = {a.ident() for n2, h2 in history.items() if n2 != n for v2 in h2
+                      for a in _SRx(v2[2]).addrs if _SRx(v2[2]).server.lower() == ro.server.lower()}
+            stale |= {a.ident() for a in ro.addrs} - {a.ident() for a in rn.addrs} - others
             if not stale:
                 continue
             owner = reg_host(history, n)
